@@ -7,7 +7,8 @@ use vstd::prelude::*;
 verus! {
 //@ default-tags C18
 // ---- request / response types: only their identity matters for the property, but a changed forwarding body may look
-//      at the options or build a status code, so those parts are the real items (the rest of each message stays opaque)
+//      at the options, the pinAuth / pinProtocol members or build a status code, so those parts are real (the rest of each message stays opaque;
+//      pin_auth is Option<Vec<u8>> for the real Option<Bytes>: only its presence can matter to a forwarding body)
 //@ source terr passkey-types/src/ctap2/error.rs
 //@ source tgi passkey-types/src/ctap2/get_info.rs
 //@ source tmc passkey-types/src/ctap2/make_credential.rs
@@ -35,8 +36,8 @@ pub mod get_info { use vstd::prelude::*;
 pub mod make_credential { use vstd::prelude::*;
     //@ extract tmc struct Options
     //@ extract tmc impl Default for Options
-    pub struct Request { pub options: Options, pub opaque: u64 } pub struct Response { pub opaque: u64 } }
-pub mod get_assertion { pub use super::make_credential::Options; pub struct Request { pub options: Options, pub opaque: u64 } pub struct Response { pub opaque: u64 } }
+    pub struct Request { pub options: Options, pub pin_auth: Option<Vec<u8>>, pub pin_protocol: Option<u8>, pub opaque: u64 } pub struct Response { pub opaque: u64 } }
+pub mod get_assertion { pub use super::make_credential::Options; pub struct Request { pub options: Options, pub pin_auth: Option<Vec<u8>>, pub pin_protocol: Option<u8>, pub opaque: u64 } pub struct Response { pub opaque: u64 } }
 pub struct Aaguid { pub opaque: u64 }
 pub mod iana { pub struct Algorithm { pub opaque: i64 } }
 pub mod webauthn { pub struct AuthenticatorTransport { pub opaque: u8 } }
